@@ -212,8 +212,102 @@ def install(I):
                     I_.write_resolved(st, ('L',) + ref[1], ('it', 'chars', it[2], None))
                     return char_at(I_, st, xt, 0)
         return m_next(I_, st, args, dty, site)
+    # ---- chars().skip(a).take(b).take_while(p).count() / .nth(k) over an exact text: a window (start, limit) on the text
+    m_skiptake = I.find_model('std::iter::Iterator::skip')
+    m_takewhile = I.find_model('std::iter::Iterator::take_while')
+    m_count = I.find_model('std::iter::Iterator::count')
+
+    def window_of(I_, st, it):
+        if it is None or it[0] != 'it':
+            return None
+        if it[1] == 'chars' and it[3] == 0 and I_.xtext.get(it[2].ident) is not None:
+            return (it[2], 0, None)
+        if it[1] == 'xwin':
+            return (it[2], it[3], it[4])
+        return None
+
+    def skiptake(I_, st, args, dty, site):
+        from .models import as_iter
+        w = window_of(I_, st, as_iter(I_, st, args[0]))
+        which = site['callee'].rsplit('::', 1)[1]
+        n = args[1] if len(args) > 1 else None
+        if w is not None and which in ('skip', 'take') and _intarg(n):
+            lo, hi = D.get_iv(st, n[1])
+            if lo == hi:
+                sv, start, limit = w
+                k = int(lo)
+                if which == 'skip':
+                    return [(st, ('it', 'xwin', sv, start + k, None if limit is None else max(limit - k, 0)))]
+                return [(st, ('it', 'xwin', sv, start, k if limit is None else min(limit, k)))]
+        return m_skiptake(I_, st, args, dty, site)
+
+    def takewhile(I_, st, args, dty, site):
+        from .models import as_iter
+        w = window_of(I_, st, as_iter(I_, st, args[0]))
+        if w is not None and site['callee'].endswith('take_while'):
+            return [(st, ('it', 'xtw', w, args[1]))]
+        return m_takewhile(I_, st, args, dty, site)
+
+    def count(I_, st, args, dty, site):
+        it = args[0]
+        if it is not None and it[0] == 'it' and it[1] == 'xtw':
+            (sv, start, limit), clo = it[2], it[3]
+            xt = I_.xtext.get(sv.ident)
+            outs, work, exact = [], [(st.clone(), 0)], True
+            while work and exact:
+                s, i = work.pop()
+                if (limit is not None and i >= limit) or i > 40:
+                    if i > 40:
+                        exact = False
+                        break
+                    outs.append((s, const_int(i, 'usize')))
+                    continue
+                if start + i > len(xt.chars):
+                    exact = False          # beyond the first character of the unknown rest
+                    break
+                for s2, oc in char_at(I_, s, xt, start + i):
+                    if oc[0] == 'e' and 0 in oc[2] and 1 not in oc[2]:
+                        outs.append((s2, const_int(i, 'usize')))
+                        continue
+                    ch = oc[2][1][0]
+                    for s3, b in I_.call_closure(s2, clo, [('r', I_.alloc(s2, ch))], site) or []:
+                        if b[0] != 'i':
+                            exact = False
+                            break
+                        blo, bhi = D.get_iv(s3, b[1])
+                        for val in (0, 1):
+                            if blo <= val <= bhi:
+                                s4 = s3.clone()
+                                if not D.set_iv(s4, b[1], val, val):
+                                    continue
+                                if val:
+                                    work.append((s4, i + 1))
+                                else:
+                                    outs.append((s4, const_int(i, 'usize')))
+            if exact and outs:
+                return outs
+            s2 = st.clone()
+            return [(s2, I_.top(s2, {'k': 'int', 's': False, 'bits': 64, 'name': 'usize'}, 'count', lo=0, hi=D.get_iv(s2, sv.len)[1]))]
+        return m_count(I_, st, args, dty, site)
+
+    def nth_win(I_, st, args, dty, site):
+        ref, n = args[0], args[1]
+        if ref[0] == 'r' and _intarg(n):
+            it = I_.read_resolved(st, ('L',) + ref[1])
+            if it is not None and it[0] == 'it' and it[1] == 'xwin':
+                xt = I_.xtext.get(it[2].ident)
+                lo, hi = D.get_iv(st, n[1])
+                if xt is not None and lo == hi and (it[4] is None or int(lo) < it[4]):
+                    I_.write_resolved(st, ('L',) + ref[1], ('it', 'unk', {'k': 'char'}, None))
+                    return char_at(I_, st, xt, it[3] + int(lo))
+        return nth(I_, st, args, dty, site)
+    for n_ in ('std::iter::Iterator::skip', 'std::iter::Iterator::take'):
+        I.models[n_] = skiptake
+    I.models['std::iter::Iterator::take_while'] = takewhile
+    I.models['std::iter::Iterator::count'] = count
+    I.models["<std::str::Chars<'a> as std::iter::Iterator>::count"] = count
     I.models['core::str::<impl str>::starts_with'] = starts_with
-    I.models['std::iter::Iterator::nth'] = nth
+    I.models['std::iter::Iterator::nth'] = nth_win
     I.models["<std::str::Chars<'a> as std::iter::Iterator>::next"] = nxt
 
     def fmt_err(I_, st, dty):
